@@ -31,7 +31,10 @@ def plan(tier, seed):
                 if heavy:
                     combos = [((3,), 'm', 1, 'f'), ((2,), 'm', 1, 'i')]
                 if any(p.name == 'IgnoreZeros' for p in sp.params):
-                    combos = [((4,), 'm', 1, 'f'), ((3,), 'm', 1, 'i')]
+                    # (4 cells with zero-stripping did not finish in 25 min: 4 cells only without it)
+                    combos = [((3,), 'm', 1, 'f'), ((3,), 'm', 1, 'i')] + ([((4,), 'm', 1, 'f')] if not var.get('bool', {}).get('IgnoreZeros') else [])
+                if tier != 'quick':
+                    combos = combos + [((2,), 'm', 2 if nary else 1, 'u')]       # unsigned integer data
             for shape, reps, k, kind in combos:
                 if not nary and len(reps) > 1 and sum(1 for p in sp.params if p.kind == 'arr') < 2:
                     reps = reps[0]
